@@ -14,7 +14,7 @@ The static inventory (harness/translate/hiddenstate.py -> RTV/Gen/HiddenState.le
        not allowed).  The recognise functions that reach the site are derived from its module; targeted histories (same
        call twice / same text under two cultures of different conventions / same text under two references of one year /
        the same text at another offset of the query /
-       main thread then worker thread / thread A paused at the k-th traced line of the site's file while thread B
+       another query of the same family first / main thread then worker thread / thread A paused at the k-th traced line of the site's file while thread B
        completes a call / fallback-enabled then fallback-disabled request) over boundary inputs (ambiguous separators
        '1,234' '1.234', numeric dates a/b/y with a, b <= 12, month-day texts on both sides of the stated day, negative
        words, fractions) plus a sample of the C02 pool, each history in its own forked child of a server process that
@@ -165,7 +165,11 @@ def class_module_snapshot():
 
 def _class_snapshot(modname, cls, qual, out):
     for attr, v in list(vars(cls).items()):
-        if attr.startswith('__') and attr.endswith('__') or attr.startswith('_verif') or attr.startswith('_abc_'):
+        if attr.startswith('_verif') or attr.startswith('_abc_') or attr in ('__dict__', '__weakref__', '__doc__', '__module__',
+                                                                              '__annotations__', '__slots__', '__parameters__',
+                                                                              '__orig_bases__', '__abstractmethods__'):
+            continue
+        if attr.startswith('__') and attr.endswith('__') and not (callable(v) or isinstance(v, (staticmethod, classmethod))):
             continue
         site = '%s:%s.%s' % (modname, qual, _demangle(cls.__name__, attr))
         e = _entry(v)
@@ -263,7 +267,8 @@ SEQ_CALLS = [('recognize_phone_number', 'call 1 (877) 609-2233 now', 'en-us'), (
              ('recognize_guid', '123e4567-e89b-12d3-a456-426614174000', 'en-us'),
              ('recognize_phone_number', '电话 13012345678', 'zh-cn')]
 CHOICE_CALLS = [('recognize_boolean', 'yes', 'en-us'), ('recognize_boolean', 'no way', 'en-us'), ('recognize_boolean', '好的', 'zh-cn'),
-                ('recognize_boolean', 'nobody said no', 'en-us')]
+                ('recognize_boolean', 'nobody said no', 'en-us'), ('recognize_boolean', 'yes or no', 'en-us'),
+                ('recognize_boolean', 'not ok not sure', 'en-us'), ('recognize_boolean', '👍 ok', 'en-us')]
 FAMILIES = {'number': ('recognize_number', 'recognize_ordinal', 'recognize_percentage'),
             'unit': ('recognize_age', 'recognize_currency', 'recognize_dimension', 'recognize_temperature'),
             'datetime': ('recognize_datetime',),
@@ -374,6 +379,13 @@ def build_histories(fam, phase, pool, site_files):
             shifted = call(c[0], 'so ' + c[1], c[2], c[4], c[3], c[5])
             hs.append({'kind': 'same-text-shifted', 'calls': [c, shifted]})
             hs.append({'kind': 'same-text-shifted', 'calls': [shifted, c]})
+        # H8 a different query of the same family first (state that is not keyed by the input at all)
+        targets = (sens + [x for x in calls if x not in sens])[:25]
+        disturbers = calls if len(calls) <= 8 else (sens[:2] + [x for x in calls if len(x[1]) > 12][:2] + calls[:1])
+        for d in disturbers:
+            for c in targets:
+                if d != c:
+                    hs.append({'kind': 'other-query-first', 'calls': [d, c]})
         # H6 fallback-enabled request for a culture without a model, then the same with the fallback disabled
         for c in calls[:1] + sens[:2]:
             for cu in ('sv-se', 'xx-yy'):
@@ -589,7 +601,8 @@ def run_search(ctx, sites, pool, why, validate=None):
     found = False
     log = []
     t0 = time.time()
-    order = ['same-call-twice', 'same-text-two-cultures', 'same-text-two-references', 'same-text-shifted', 'fallback-then-no-fallback',
+    order = ['same-call-twice', 'same-text-two-cultures', 'same-text-two-references', 'same-text-shifted', 'other-query-first',
+             'fallback-then-no-fallback',
              'worker-thread-alone', 'main-then-worker-thread', 'paused-interleaving']
     for fam, phase in validate or [(f, ph) for f in fams for ph in ('sequential', 'threads')]:
         hs = build_histories(fam, phase, pool, files)
@@ -705,12 +718,12 @@ def correspond(ctx, pool=None):
     from lib import c02worker
     c02worker.load_funcs()
     import datatypes_timex_expression  # noqa
-    after = class_module_snapshot()
     g1, n1 = graph_snapshot()
     fresh = fresh_inputs()
     for c in fresh:
         _evaluate(c)
     g2, n2 = graph_snapshot()
+    after = class_module_snapshot()
     out, err = p.communicate('{}', timeout=600)
     if p.returncode != 0:
         raise common.InfraError('hidden-state snapshot child failed: ' + err[-1500:])
